@@ -153,6 +153,9 @@ func SolveAll(v *FnVC, timeoutMs int, scratch string, sem chan struct{}) (vacuou
 		if o.Result == want {
 			continue
 		}
+		if o.IsCover && (o.Result == "unknown" || o.Result == "timeout") {
+			continue // a cover only fails when it is refuted (unsat); quantified contexts often give unknown
+		}
 		o := o
 		wg.Add(1)
 		go func() {
